@@ -383,6 +383,10 @@ func runC05(r *RunCtx) error {
 	if err := c05BusyChain(r); err != nil {
 		return err
 	}
+	// ------------------------------------------------------------------ (c1) a few enormous (declared) files
+	if err := c05HugeFiles(r); err != nil {
+		return err
+	}
 	// ------------------------------------------------------------------ (c) whole-app chains
 	nchain := r.Scale(5, 40)
 	for c := 0; c < nchain; c++ {
@@ -648,6 +652,59 @@ func c05BusyChain(r *RunCtx) error {
 			r.Finding("C05/beginblock-panic/"+where, fmt.Sprintf("the assembled app (block gas limit %d, %d stored files) panicked in %s after valid transactions: %s", cp.Block.MaxGas, nfiles, where, pn), map[string]interface{}{"trace": trace, "height": e.Height})
 			return nil
 		}
+	}
+	return nil
+}
+
+// c05HugeFiles: every file passes stateless validation (FileSize x MaxProofs fits int64), but nothing bounds the sum
+// over files: the sizes a reward block adds up wrap around int64 — to a negative number, or past 2^64 to a small
+// positive one while single provers are credited with enormous sizes.  Block processing must complete all the same.
+func c05HugeFiles(r *RunCtx) error {
+	type hf struct {
+		size   int64
+		prover int
+	}
+	variants := [][]hf{
+		{{1 << 62, 1}, {1 << 62, 2}},                         // sum 2^63: wraps negative
+		{{1<<63 - 1, 1}, {1<<62 + 2, 1}, {1 << 62, 2}},       // sum 2^64 + 1: wraps to 1
+		{{1 << 62, 1}, {1 << 62, 2}, {1 << 62, 1}, {1 << 62, 2}, {5, 2}}, // sum 2^64 + 5
+		{{1<<63 - 1, 1}, {1<<63 - 1, 2}},                     // sum 2^64 - 2: wraps to -2
+	}
+	for vi, files := range variants {
+		e, err := NewEnv()
+		if err != nil {
+			return err
+		}
+		sp := StorageParams(e)
+		sp.CheckWindow, sp.ProofWindow = 4, 3
+		GovSetStorageParams(e, sp)
+		owner := Acct(1)
+		provers := map[int]sdk.AccAddress{1: Acct(2), 2: Acct(3)}
+		_ = e.Fund(owner, "ujkl", 9_000_000_000_000_000_000)
+		trace := []interface{}{}
+		for fi, f := range files {
+			data := []byte(fmt.Sprintf("huge-%d-%d", vi, fi))
+			root, item, pj := c05OneChunkFile(data)
+			res := e.Run(&storagetypes.MsgPostFile{Creator: owner.String(), Merkle: root, FileSize: f.size, MaxProofs: 1, Expires: e.Height + 14400*2, Note: "{}"})
+			r.Hist("chain_msgs", "storage.MsgPostFile(declared enormous):"+res.Out)
+			trace = append(trace, map[string]interface{}{"block": e.Height, "msg": "MsgPostFile", "file_size": f.size, "max_proofs": 1, "out": res.Out, "err": res.Err})
+			if res.Out != OutOk {
+				continue
+			}
+			res = e.Run(&storagetypes.MsgPostProof{Creator: provers[f.prover].String(), Item: item, HashList: pj, Merkle: root, Owner: owner.String(), Start: e.Height, ToProve: 0})
+			r.Hist("chain_msgs", "storage.MsgPostProof(declared enormous):"+res.Out)
+			trace = append(trace, map[string]interface{}{"block": e.Height, "msg": "MsgPostProof", "prover": f.prover, "out": res.Out, "err": res.Err})
+		}
+		for b := 0; b < 9; b++ {
+			pn, where := c05NextBlock(e, 10*time.Minute)
+			r.Count(fmt.Sprintf("huge:%d:%d", vi, b), true)
+			r.Hist("whole_app_block", map[bool]string{true: "panic in " + where, false: "completed"}[pn != ""])
+			if pn != "" {
+				r.Finding("C05/beginblock-panic/"+where, fmt.Sprintf("the assembled app panicked in %s after valid transactions (stored sizes adding up beyond int64): %s", where, pn), map[string]interface{}{"trace": trace, "height": e.Height})
+				break
+			}
+		}
+		e.Close()
 	}
 	return nil
 }
